@@ -508,6 +508,56 @@ def numeric_chain(args):
     return name, chain, problems, False
 
 
+def domain_checks(_=None):
+    """Sample every system's DECLARED domain (from the assumptions of its base scalars: a length scalar that is not
+    declared non-negative is also sampled at negative values; angles are sampled inside their principal range) and
+    require there: base scalars A -> B -> A is the identity, and every Lame coefficient equals the length of the
+    position derivative.  Numeric (30 digits), hence outside TLC's exact arithmetic."""
+    import sympy as sp
+    from itertools import product
+    from symplyphysics.core.experimental.points import AppliedPoint
+    from symplyphysics.core.experimental.coordinate_systems import convert_point, express_base_scalars
+    problems, count = [], 0
+    angle_slots = {"cart": (), "cyl": (1,), "sph": (1, 2)}
+    tol = sp.Float(10) ** -30
+    for inst, sy in enumerate(_sets()):
+        for a in SYSTEMS:
+            options = []
+            for i, q in enumerate(sy[a].base_scalars):
+                nonneg = bool(q.is_nonnegative or q.is_positive)
+                if i in angle_slots[a]:
+                    options.append([sp.Rational(3, 4), sp.Integer(2)] if nonneg else
+                                   [sp.Integer(-2), sp.Rational(-3, 4), sp.Rational(3, 4), sp.Integer(2)])
+                else:
+                    options.append([sp.Rational(3, 2)] if nonneg else [sp.Rational(3, 2), sp.Rational(-5, 2)])
+            cart2 = _sets()[(inst + 1) % 3]["cart"]
+            scal = express_base_scalars(cart2, sy[a]) if a != "cart" else None
+            for sample in product(*options):
+                count += 1
+                point = AppliedPoint(list(sample), sy[a])
+                for b in SYSTEMS:
+                    if b == a:
+                        continue
+                    try:
+                        back = convert_point(convert_point(point, sy[b]), sy[a])
+                        got = [sp.N(c, 50) for c in back.coordinates.values()]
+                    except Exception as e:  # pylint: disable=broad-except
+                        problems.append((f"{a} -> {b} -> {a} at {list(sample)} (instance {inst + 1})", f"raised {type(e).__name__}: {str(e)[:100]}"))
+                        continue
+                    if not all(g.is_number and abs(g - w) < tol for g, w in zip(got, sample)):
+                        problems.append((f"base scalars {a} -> {b} -> {a} at {list(sample)} (instance {inst + 1})",
+                                         f"the point {list(sample)} of the declared domain of the {a} system comes back as {list(back.coordinates.values())}"))
+                if scal is not None:
+                    xs = [scal[s] for s in cart2.base_scalars]
+                    for i, (q, h) in enumerate(zip(sy[a].base_scalars, sy[a].lame_coefficients)):
+                        length = sp.N(sp.sqrt(sum(sp.diff(x, q)**2 for x in xs)).subs(point.coordinates), 50)
+                        hv = sp.N(sp.sympify(h).subs(point.coordinates), 50)
+                        if not (hv.is_number and abs(hv - length) < tol):
+                            problems.append((f"lame_coefficients[{a}][{i + 1}] at {list(sample)} (instance {inst + 1})",
+                                             f"scale factor {h} = {hv} but |d position / d {q}| = {length} at a point of the declared domain"))
+    return problems, count
+
+
 def numeric_chain_cases():
     import sympy as sp
     from itertools import product
@@ -625,6 +675,12 @@ def main() -> int:
                     report(run, f"chain from {name}: {clause}", what, {"kind": "chain", "name": name, "chain": chain})
             run.traces += chains
             run.outside("chained conversions at non-Pythagorean points compared numerically (30 digits), not by TLC", chains)
+            # the declared domains of the systems
+            (dom_problems, dom_count), = list(pmap(pool, domain_checks, [None], chunk=1))
+            for clause, what in dom_problems:
+                report(run, f"domain: {clause}", what, {"kind": "domain"})
+            run.count("declared domains sampled", dom_count)
+            run.outside("round trips / scale factors at sampled points of the declared domains compared numerically (30 digits), not by TLC", dom_count)
             # code -> spec
             recs, by_id = [], {}
             for triple in pmap(pool, record_point, list(enumerate(t["matrix_points"])), chunk=2):
@@ -688,7 +744,9 @@ def replay_file(path: str) -> int:
     c = data["case"]
     _init()
     bad = []
-    if c["kind"] == "chain":
+    if c["kind"] == "domain":
+        bad = [f"{clause}: {what}" for clause, what in domain_checks()[0] if f"domain: {clause}" == data["key"]]
+    elif c["kind"] == "chain":
         case = next(x for x in numeric_chain_cases() if x[0] == c["name"] and x[4] == c["chain"])
         bad = [f"{clause}: {what}" for clause, what in numeric_chain(case)[2]]
     elif c["kind"] == "path":
